@@ -57,7 +57,7 @@ type rNotifier struct {
 }
 
 func (n *rNotifier) Notify(c chan<- os.Signal, _ ...os.Signal) { n.mu.Lock(); n.c = c; n.mu.Unlock() }
-func (n *rNotifier) Stop(chan<- os.Signal)                   {}
+func (n *rNotifier) Stop(chan<- os.Signal)                     {}
 func (n *rNotifier) send(s os.Signal) {
 	n.mu.Lock()
 	c := n.c
